@@ -126,7 +126,13 @@ def _handle_job_set(function):
     def call(self, job_set=taskhandle.DEFAULT_JOB_SET):
         job_set.started_job(str(self))
         function(self)
-        job_set.finished_job()
+        try:
+            job_set.finished_job()
+        except exceptions.InterruptedTaskError:
+            # This change has been applied already.  Raising here would hide
+            # it from the rollback in `ChangeSet`; the interruption is noticed
+            # again when the next job starts.
+            pass
 
     return call
 
